@@ -123,9 +123,16 @@ def hard_errors(ctx, root):
         nb = rng.randint(2, 9)
         c.files = [('f', [('seg', nb * c.bsize + rng.choice([0, 1, 777]), 11 + i)]), ('g', [('seg', rng.choice([10, 5000, 3 * c.bsize]), 50 + i)])]
         victim = rng.choice(['f', 'g'])
-        kind = rng.choice(['cfr', 'cfr', 'uspace-write', 'uspace-read'])
+        kind = rng.choice(['cfr', 'cfr', 'cfr-again', 'seek', 'uspace-write', 'uspace-read']) if i >= 8 else ['seek', 'cfr-again'][i % 2]
         en = rng.choice(['EIO', 'ENOSPC'])
-        if kind == 'cfr':
+        if kind == 'seek':
+            # the data/hole search of a sparse source fails (EINVAL/EOPNOTSUPP: a file system without SEEK_DATA; EIO): never "the rest is a hole"
+            c.driver = 'parfile'; c.files = [('f', br.gen_data(rng, 130 * br.K + rng.randrange(br.K), True)), ('g', [('seg', 5000, 50 + i)])]; victim = 'f'
+            c.plan = [f'fail lseek S/f {rng.randint(1, 12)} {E[rng.choice(["EINVAL", "EOPNOTSUPP", "EIO"])]}']
+        elif kind == 'cfr-again':
+            # copy_file_range is interrupted (EINTR) or told to try again (EAGAIN): not an end of file
+            c.plan = [f'fail copy_file_range D/{victim} {rng.choice([1, 1, 2]) if victim == "f" else 1} {E[rng.choice(["EINTR", "EAGAIN"])]}']
+        elif kind == 'cfr':
             c.plan = [f'fail copy_file_range D/{victim} {rng.choice([1, 1, 2]) if victim == "f" else 1} {E[en]}']
         elif kind == 'uspace-write':
             c.plan = [f'fail copy_file_range * * {E["ENOSYS"]}', f'fail pwrite64 D/{victim} {rng.choice([1, 1, 2])} {E[en]}', f'fail write D/{victim} {rng.choice([1, 1, 2])} {E[en]}']
@@ -134,7 +141,7 @@ def hard_errors(ctx, root):
             c.plan = [f'fail copy_file_range * * {E["EXDEV"]}', f'fail pread64 S/{victim} {rng.choice([1, 1, 2])} {E[er]}'] + ([f'fail read S/{victim} {rng.choice([1, 1, 2])} {E["EIO"]}'] if er == 'EIO' else [])
         pairs = br.setup_case(root, c)
         r = scen.run_xcp(root, br.argv_of(c), plan=c.plan, timeout=120)
-        fired = sum(1 for e in r.trace if e.get('inj') and e['sys'] != 'copy_file_range' or (e.get('inj') and kind == 'cfr'))
+        fired = sum(1 for e in r.trace if e.get('inj') and e['sys'] != 'copy_file_range' or (e.get('inj') and kind in ('cfr', 'cfr-again')))
         ctx.count(f'hard_error.{kind}.' + ('fired' if fired else 'not_fired')); ctx.count(f'hard_error.exit.{r.cls}')
         ctx.case(('hard-error', i, c.driver, c.workers, tuple(c.plan)), bool(fired))
         if r.cls == 'hang':
